@@ -191,3 +191,115 @@ Definition code_succ (unl : Z) (succ : list nat) (f : nat) : list Z :=
   | Fine (VInt b, _) => [0; b] | Fine _ => [-3] | Stuck _ => [-1] | NoFuel => [-2]
   end.
 Definition model_succ (unl : Z) (succ : list nat) (f : nat) : list Z := [0; if existsb (Nat.eqb f) succ then 1 else 0].
+
+(* ------------------------------------------------------------------------------------------ *)
+(* the walk over the suite tree: run_every_test() / run_named_test() of src/runner.c with the helpers of
+   src/suite.c, on a heap built from a model tree, against the order of events of Runner.run_node *)
+From CgreenVerif.Gen Require Import Facts.
+Fixpoint tally (n : nat) : string := match n with O => EmptyString | S k => append "I" (tally k) end.
+Definition sname (s : nat) : list Z := [115; Z.of_nat s].
+Definition tname (t : nat) : list Z := [116; Z.of_nat t].
+
+Fixpoint build (n : node) (h : list obj) {struct n} : list obj * val :=
+  match n with
+  | Tn t => (h ++ [ORec [("name", VLit (tname (tid t))); ("skip", VInt 0)]], VPtr (List.length h) 0)
+  | Sn s ch =>
+      let '(h1, units) :=
+        (fix go (l : list node) (h : list obj) {struct l} : list obj * list val :=
+           match l with
+           | [] => (h, [])
+           | c :: l' =>
+               let '(h', p) := build c h in
+               let unit :=
+                 match c with
+                 | Tn t => ORec [("type", VInt 0); ("name", VLit (tname (tid t))); ("Runnable.test", p)]
+                 | Sn s' _ => ORec [("type", VInt 1); ("name", VLit (sname (sid s'))); ("Runnable.suite", p)]
+                 end in
+               let '(h'', us) := go l' (h' ++ [unit]) in
+               (h'', VPtr (List.length h') 0 :: us)
+           end) ch h in
+      let h2 := h1 ++ [OVec units] in
+      (h2 ++ [ORec [("name", VLit (sname (sid s))); ("size", VInt (Z.of_nat (List.length ch)));
+                    ("tests", VPtr (List.length h1) 0);
+                    ("setup", VFun (if s_has_setup s then "setup" ++ tally (sid s) else "do_nothing")%string);
+                    ("teardown", VFun (if s_has_teardown s then "teardown" ++ tally (sid s) else "do_nothing")%string);
+                    ("filename", VLit []); ("line", VInt (Z.of_nat (sid s)))]],
+       VPtr (List.length h2) 0)
+  end.
+
+Definition walk_reporter : obj :=
+  ORec [("start_suite", VFun "start_suite"); ("finish_suite", VFun "finish_suite");
+        ("passes", VInt 0); ("failures", VInt 0); ("skips", VInt 0); ("exceptions", VInt 0);
+        ("duration", VInt 0); ("total_duration", VInt 0)].
+
+Fixpoint untally (s : string) : Z := match s with EmptyString => 0 | String _ r => 1 + untally r end.
+Definition starts_with (p s : string) : bool := String.eqb p (substring 0 (String.length p) s).
+
+Definition name_id (w : world) (v : val) : Z :=
+  match get_field w v "name" with Fine (VLit [_; k]) => k | _ => -9 end.
+
+Definition walk_event (w : world) (ev : string * list val) : list Z :=
+  let '(f, args) := ev in
+  if String.eqb f "start_suite" then
+    match args with [_; VLit [_; k]; VInt c] => [1; k; c] | _ => [-9] end
+  else if starts_with "setup" f then [2; untally f - 5]
+  else if starts_with "teardown" f then [3; untally f - 8]
+  else if String.eqb f "run_test_in_its_own_process" then
+    match args with [_; t; _] => [4; name_id w t] | _ => [-9] end
+  else if String.eqb f "run_test_in_the_current_process" then
+    match args with [_; t; _] => [5; name_id w t] | _ => [-9] end
+  else if String.eqb f "send_reporter_completion_notification" then [6]
+  else if String.eqb f "finish_suite" then
+    match args with [_; _; VInt k] => [7; k] | _ => [-9] end
+  else [].
+
+Definition walk_result (r : cres (val * world)) : list Z :=
+  match r with
+  | Fine (_, w) => 0 :: flat_map (walk_event w) (rev (wtrace w))
+  | Stuck _ => [-1]
+  | NoFuel => [-2]
+  end.
+
+Definition nofork_stream (inproc : bool) (k : nat) : list (string * list val) :=
+  if inproc then [("getenv", repeat (VLit [49]) k)] else [].
+
+Fixpoint node_size (n : node) : nat :=
+  match n with Tn _ => 1%nat | Sn _ ch => S (fold_right (fun c a => (node_size c + a)%nat) O ch) end.
+
+Definition code_walk (inproc : bool) (n : node) : list Z :=
+  let '(h, root) := build n [walk_reporter] in
+  walk_result (run_fun prog_walk (4 * node_size n + 10) "run_every_test" [root; VPtr 0 0]
+                       (mkw h [] (nofork_stream inproc (node_size n)) [])).
+Definition code_walk_named (k : nat) (n : node) : list Z :=
+  let '(h, root) := build n [walk_reporter] in
+  walk_result (run_fun prog_walk (8 * node_size n + 10) "run_named_test" [root; VLit (tname k); VPtr 0 0]
+                       (mkw h [] [] [])).
+
+Fixpoint count_tests_m (n : node) : Z :=
+  match n with Tn _ => 1 | Sn _ ch => fold_right (fun c a => count_tests_m c + a) 0 ch end.
+Fixpoint suite_counts (n : node) : list (nat * Z) :=
+  match n with
+  | Tn _ => []
+  | Sn s ch => (sid s, count_tests_m n) :: flat_map suite_counts ch
+  end.
+
+Definition model_event (inproc : bool) (counts : list (nat * Z)) (e : event) : list Z :=
+  match e with
+  | EStartSuite s => [1; Z.of_nat s; match find (fun p => Nat.eqb (fst p) s) counts with Some (_, c) => c | None => -9 end]
+  | EFixture s false => [2; Z.of_nat s]
+  | EFixture s true => [3; Z.of_nat s]
+  | EStartTest t => [if inproc then 5 else 4; Z.of_nat t]
+  | ESuiteDone s _ _ => [6; 7; Z.of_nat s]
+  | _ => []
+  end.
+
+Definition model_walk (inproc : bool) (n : node) : list Z :=
+  match run_suite rk_text verdict_suite (if inproc then InProcess else Forked) 4096 n with
+  | Finished _ p => 0 :: flat_map (model_event inproc (suite_counts n)) (rev (out p))
+  | Crashed _ _ => [-8]
+  end.
+Definition model_walk_named (k : nat) (n : node) : list Z :=
+  match run_single rk_text verdict_single 4096 k n with
+  | Finished _ p => 0 :: flat_map (model_event true (suite_counts n)) (rev (out p))
+  | Crashed _ _ => [-8]
+  end.
